@@ -582,6 +582,19 @@ class C14:
             return a['mu']
         return apply_fn(t['fn'], [self._ref_guess(a) for a in t['args']])
 
+    def _ref_all_finite(self, t):
+        """False when the expression, evaluated on the base guesses, passes
+        through a division by zero or an overflow at *any* intermediate step
+        (numpy arithmetic gives inf / nan there, Python floats raise)."""
+        if 'fn' in t and not all(self._ref_all_finite(a) for a in t['args']):
+            return False
+        try:
+            with np.errstate(all='ignore'):
+                ref = self._ref_guess(t)
+            return bool(np.all(np.isfinite(np.asarray(ref, dtype=complex))))
+        except (ZeroDivisionError, OverflowError):
+            return False
+
     def _check_eval(self, ex, ev, rec):
         ra = rec['rargs']
         t = self.tree(ex, ra['pr'])
@@ -656,13 +669,7 @@ class C14:
                 rec.get('exc') in ('ZeroDivisionError', 'OverflowError'):
             # a degenerate expression (e.g. 1 / (p - p)): the same operation
             # applied to the base guesses fails the same way
-            try:
-                with np.errstate(all='ignore'):
-                    ref = self._ref_guess(t)
-                degenerate = not np.all(np.isfinite(np.asarray(
-                    ref, dtype=complex)))
-            except (ZeroDivisionError, OverflowError):
-                degenerate = True
+            degenerate = not self._ref_all_finite(t)
             if degenerate:
                 return
         if rec['outcome'] != 'ok':
